@@ -112,6 +112,9 @@ def interp_for(prog):
     return it
 
 
+VALIDATE_CAP = 16
+
+
 def check_set_memory(item):
     n, endian = item["n"], item["endian"]
     prog = program()
@@ -132,7 +135,7 @@ def check_set_memory(item):
     exp_mapped = z3.Or(innew, mapped(pre_ab, q))
     exp_byte = z3.If(innew, z3.Select(darr, q - addr), byte_at(pre_ab, q))
     exp_perm = z3.If(innew, nperm, perm_at(pre_ab, q))
-    out = {"what": f"set_memory n={n} {endian}", "paths": 0, "unsat": 0, "findings": [], "undecided": [], "solver_s": 0.0, "fn": fn, "hash": prog.func(fn).text_hash, "calls": set()}
+    out = {"what": f"set_memory n={n} {endian}", "paths": 0, "unsat": 0, "findings": [], "undecided": [], "solver_s": 0.0, "fn": fn, "hash": prog.func(fn).text_hash, "calls": set(), "validated": 0, "validation_failures": []}
     it = interp_for(prog)
     for r in I.explore(it, fn, mk, max_paths=3000):
         out["paths"] += 1; out["calls"] |= set(r["calls"])
@@ -164,6 +167,28 @@ def check_set_memory(item):
                                     "model": dump_model(m, pre, addr, dlen, darr, nperm, qv)})
         elif v == solve.UNDECIDED: out["undecided"].append("bytemap query")
         else: out["unsat"] += 1
+        # (d) validation of the encoding itself: one solver-chosen concrete state on this path, replayed through the
+        #     real set_memory (driver); the real byte map must equal the one the symbolic post-state denotes
+        if out["validated"] + len(out["validation_failures"]) < VALIDATE_CAP:
+            small = [z3.ULE(dlen, bv(12))] + [z3.And(z3.UGE(l, bv(1)), z3.ULE(l, bv(12))) for l in pre.lens] + [z3.ULT(p_, z3.BitVecVal(8, 32)) for p_ in pre.perms] + [z3.ULT(nperm, z3.BitVecVal(8, 32))]
+            v, m, dt = solve.check(pc + small, 20000); out["solver_s"] += dt
+            if v == solve.SAT:
+                model = dump_model(m, pre, addr, dlen, darr, nperm, None)
+                want = {}
+                for k, ln, arr, off, pm in post:
+                    kv, lv, ov, pv = (solve.model_val(m, x) for x in (k, ln, off, pm))
+                    for j in range(min(lv, 64)):
+                        want[kv + j] = (solve.model_val(m, z3.Select(arr, bv(ov + j))), pv & 7)
+                real = replay_set_memory(model, endian)
+                got = {}
+                if real and real.get("ok"):
+                    for a, hx, pm in real["sections"]:
+                        for j, b in enumerate(bytes.fromhex(hx)):
+                            got[a + j] = (b, pm & 7)
+                if real and real.get("ok") and got == want:
+                    out["validated"] += 1
+                else:
+                    out["validation_failures"].append({"model": model, "expected": sorted(want.items())[:40], "real": (real or {}).get("sections")})
     out["calls"] = sorted(out["calls"])
     return out
 
@@ -323,10 +348,14 @@ def main():
     results = common.pmap(work, items, chunksize=1)
     fns = {}
     paths = 0
+    validated = 0
     for it, r in zip(items, results):
         if "crash" in r:
             rep.encoder_defect(f"{it}: {r['crash']} {r.get('trace','')[-500:]}"); continue
         paths += r["paths"]; rep.solver_s += r["solver_s"]; rep.queries["unsat"] += r["unsat"]
+        validated += r.get("validated", 0)
+        for vf in r.get("validation_failures", []):
+            rep.encoder_defect(f"{r['what']}: real set_memory disagrees with the symbolic post-state on a solver-chosen state: {json.dumps(vf)[:400]}")
         fns[r["fn"]] = r["hash"]
         for c in r["calls"]: fns.setdefault(c, "inlined")
         for u in r["undecided"]:
@@ -348,7 +377,7 @@ def main():
     rep.bounds = {"pre_state_sections": f"0..{nmax} for set_memory, 0..2 for the reads", "lengths": f"<= {MAXLEN}", "addresses": "< 2^62 (no u64 wrap-around)",
                   "outside": "more than the stated number of pre-existing sections touched by one call; address arithmetic wrapping at 2^64"}
     rep.extra["models"] = [p.pattern for p, _ in K.CONTAINER_MODELS]
-    rep.finish({"states": max(1, paths), "transitions": max(1, rep.queries["unsat"] + rep.queries["sat"]), "traces_validated_against_impl": rep.queries["sat"],
+    rep.finish({"states": max(1, paths), "transitions": max(1, rep.queries["unsat"] + rep.queries["sat"]), "traces_validated_against_impl": validated + rep.queries["sat"],
                 "explanation": "states = MIR paths through set_memory/get8/permissions/get32/set32/get from an arbitrary valid pre-state; transitions = per-path obligations (no panic, invariant, byte-map equality at a fresh address)"},
                assumptions=["std BTreeMap/Vec/iterator calls behave as documented (models in mirsym/containers.py)", "pre-state satisfies sorted + pairwise disjoint; the post-condition re-establishes it (inductive step)"])
 
